@@ -68,4 +68,11 @@ theorem readIter_nofetch {ρ : Type} (sk : ρ → Nat → Except IoErr Nat × ρ
     Gen.SrcIdxFaIter.readIter sk s none none none = Res.ok (.error (toIo .nofetch)) := by
   simp [Gen.SrcIdxFaIter.readIter, toIo]
 
+/-- an iterator over the empty interval (`bases_left = 0`, empty buffer) ends at the first call of `next`, whatever the
+capacity (for `start = stop` the constructor asks for capacity 0) -/
+theorem drainIt_empty (sched : Nat → Nat) (cap : Nat) (idx : Idx) (fuel calls : Nat) (hc : 0 < calls) (s : St) (lo : Nat) :
+    drainIt sched cap idx fuel calls (s, 0, lo, [], 0) = Res.ok [] := by
+  obtain ⟨c, rfl⟩ : ∃ c, calls = c + 1 := ⟨calls - 1, by omega⟩
+  simp [drainIt, Gen.SrcIdxFa.next]
+
 end RbV.Thm.GenSrcIdxFaIter
